@@ -375,6 +375,15 @@ func (x *Exec) applyContract(c *Contract, name string, args []Val, names []strin
 		}
 		x.smt.assume(t)
 	}
+	for _, e := range c.Names {
+		t, err := x.evalSpec(e.E, env)
+		if err != nil {
+			x.specError(e, err)
+			continue
+		}
+		x.smt.assume(implies(x.reach, t))
+		x.V.noteAssumed("result of " + lastSeg(name) + " named by a spec function (determinism): " + e.Src)
+	}
 	for _, e := range c.Ensures {
 		t, err := x.evalSpec(e.E, env)
 		if err != nil {
